@@ -175,6 +175,26 @@ Section C09.
         if r =? r' then Tm (brow K k0 band (bidx out (bshape band) r)) i j else k0.
   Proof. exact (as_matrix_spec_l K k0). Qed.
 
+  Theorem as_matrix_symmetric : forall xbatch n (band : barr K) Kb size M,
+    1 <= n -> 1 <= Kb -> Forall (fun d => 1 <= d) xbatch -> wf_barr band Kb ->
+    as_matrix K k0 xbatch n band = Ok (size, M) ->
+    forall p q, 0 <= p < size -> 0 <= q < size -> M p q = M q p.
+  Proof.
+    intros xbatch n band Kb size M Hn HK Hxb Hwb Has p q Hp Hq.
+    destruct (as_matrix_spec_l K k0 _ _ _ _ _ Hn Has) as (out & Hbc & -> & HM).
+    assert (Hrow : forall r, 0 <= r -> 1 <= alen (brow K k0 band (bidx out (bshape band) r))).
+    { intros r Hr. destruct (bidx_range _ _ _ r Hbc Hxb ltac:(apply Hwb) Hr) as [_ H2].
+      rewrite (wf_brow k0 band Kb _ Hwb H2). exact HK. }
+    pose proof (Z.div_mod p n ltac:(lia)) as Ep. pose proof (Z.mod_pos_bound p n ltac:(lia)) as Bp.
+    pose proof (Z.div_mod q n ltac:(lia)) as Eq. pose proof (Z.mod_pos_bound q n ltac:(lia)) as Bq.
+    assert (0 <= p / n < zprod out) by (split; [apply Z.div_pos; lia | apply Z.div_lt_upper_bound; lia]).
+    assert (0 <= q / n < zprod out) by (split; [apply Z.div_pos; lia | apply Z.div_lt_upper_bound; lia]).
+    replace p with (p / n * n + p mod n) by lia. replace q with (q / n * n + q mod n) by lia.
+    rewrite !HM by (try apply Hrow; lia).
+    rewrite (Z.eqb_sym (q / n)). destruct (p / n =? q / n) eqn:E; [|reflexivity].
+    apply Z.eqb_eq in E. rewrite E. apply T_symmetric.
+  Qed.
+
   (* the matrix of as_matrix applied to the flattened input is mv, row by row *)
   Theorem as_matrix_times_x : forall n B blocks (xflat : Z -> K) r i,
     1 <= n -> 0 <= r < B -> 0 <= i < n ->
@@ -191,6 +211,7 @@ Print Assumptions fft_eq.
 Print Assumptions overlap_save_eq.
 Print Assumptions mv_correct.
 Print Assumptions as_matrix_blockdiag.
+Print Assumptions as_matrix_symmetric.
 Print Assumptions as_matrix_times_x.
 
 (* the default FFT size is a power of two not smaller than the number of bands 2K-1 *)
